@@ -293,6 +293,11 @@ impl Array4 {
         self.estimator.set_hip_accum(value);
     }
 
+    /// Replaces the estimator state (HIP accumulator, KxQ sums, out-of-order flag)
+    pub(super) fn set_estimator(&mut self, estimator: HipEstimator) {
+        self.estimator = estimator;
+    }
+
     /// Check if the sketch is empty (all slots are zero)
     pub fn is_empty(&self) -> bool {
         self.num_at_cur_min == (1 << self.lg_config_k) && self.cur_min == 0
